@@ -266,6 +266,55 @@ def relations(rng, tier, rpt):
     seeds = [bytes(32), bytes(3)]
     s0 = list(seeds)
     SplToken.FindPda(seeds, "ATokenGPvbdGVxr1b2hvZbsiqW5xWH25efTNsLJA8knL")
+    # (d) parent objects are not mutated by deriving children (every wrapper with a derivation method): observable state before == after,
+    #     and a child derived after its siblings equals the child derived first
+    from bip_utils import (Substrate, SubstrateCoins, Bip32Slip10Secp256k1, Bip32KholawEd25519, Bip44, Bip44Coins, Cip1852, Cip1852Coins, CardanoShelley, Monero,
+                           ElectrumV1, ElectrumV2Standard, SubstratePath, SubstratePathElem)
+    sd = bytes(range(1, 33))
+
+    def st_sub(o):
+        return (o.PublicKey().RawCompressed().ToBytes(), o.Path().ToStr(), o.IsPublicOnly())
+
+    def st_b32(o):
+        return (o.PublicKey().RawCompressed().ToBytes(), o.ChainCode().ToBytes(), int(o.Depth()), int(o.Index()), o.ParentFingerPrint().ToBytes(), o.IsPublicOnly())
+
+    def st_b44(o):
+        return st_b32(o.Bip32Object()) + (int(o.Level()),)
+    acc = Cip1852.FromSeed(sd, Cip1852Coins.CARDANO_ICARUS).Purpose().Coin().Account(0)
+    parents = [
+        ("Substrate", Substrate.FromSeed(sd, SubstrateCoins.POLKADOT).ChildKey("//p"), st_sub, [lambda o: o.ChildKey("/a"), lambda o: o.ChildKey("//b"), lambda o: o.DerivePath("/c//d")]),
+        ("Bip32Slip10Secp256k1", Bip32Slip10Secp256k1.FromSeed(sd).ChildKey(3), st_b32, [lambda o: o.ChildKey(0), lambda o: o.ChildKey(2**31 + 1), lambda o: o.DerivePath("5/6'")]),
+        ("Bip32KholawEd25519", Bip32KholawEd25519.FromSeed(sd), st_b32, [lambda o: o.ChildKey(0), lambda o: o.ChildKey(2**31), lambda o: o.DerivePath("1/2")]),
+        ("Bip44 account", Bip44.FromSeed(sd, Bip44Coins.LITECOIN).Purpose().Coin().Account(0), st_b44, [lambda o: o.Change(Bip44Changes.CHAIN_EXT), lambda o: o.Change(Bip44Changes.CHAIN_INT)]),
+        ("Cip1852 account", acc, st_b44, [lambda o: o.Change(Bip44Changes.CHAIN_EXT), lambda o: CardanoShelley.FromCip1852Object(o).Change(Bip44Changes.CHAIN_EXT).AddressIndex(0)]),
+    ]
+    n_par = 0
+    for name, par, view, kids in parents:
+        before = view(par)
+        first = []
+        for kfun in kids:
+            k = kfun(par)
+            first.append(repr(k.PublicKey().RawCompressed().ToBytes() if hasattr(k, "PublicKey") and not hasattr(k, "PublicKeys") else k.PublicKeys().AddressKey().RawCompressed().ToBytes()) +
+                         (k.Path().ToStr() if hasattr(k, "Path") else ""))
+        again = []
+        for kfun in reversed(kids):
+            k = kfun(par)
+            again.append(repr(k.PublicKey().RawCompressed().ToBytes() if hasattr(k, "PublicKey") and not hasattr(k, "PublicKeys") else k.PublicKeys().AddressKey().RawCompressed().ToBytes()) +
+                         (k.Path().ToStr() if hasattr(k, "Path") else ""))
+        n_par += 1
+        if view(par) != before:
+            rep("%s: the parent object changed when children were derived from it" % name, name, str(view(par)), str(before))
+        if first != again[::-1]:
+            rep("%s: a child depends on the siblings derived before it" % name, name, str(again[::-1]), str(first))
+    pth = SubstratePath([SubstratePathElem("/x")])
+    q1, q2 = pth.AddElem("/y").ToStr(), pth.AddElem("//z").ToStr()
+    if (pth.ToStr(), q1, q2) != ("/x", "/x/y", "/x//z"):
+        rep("SubstratePath.AddElem changes its receiver", "/x", str((pth.ToStr(), q1, q2)), "('/x', '/x/y', '/x//z')")
+    b32p = Bip32Path([1, 2], True)
+    r1, r2 = b32p.AddElem(3).ToList(), b32p.AddElem(4).ToList()
+    if (b32p.ToList(), r1, r2) != ([1, 2], [1, 2, 3], [1, 2, 4]):
+        rep("Bip32Path.AddElem changes its receiver", "m/1/2", str((b32p.ToList(), r1, r2)), "([1, 2], [1, 2, 3], [1, 2, 4])")
+    rpt.extra["parent_unchanged_checks"] = n_par
     for name, a, b in (("Bip32Path(elems)", elems, e0), ("Mnemonic.FromList(words)", words, w0), ("CborIndefiniteLenArrayEncoder.Encode(list)", ints, i0),
                        ("SplToken.FindPda(seeds)", seeds, s0)):
         if a != b:
@@ -300,7 +349,7 @@ def _order_independence(rng, tier, rpt):
         outs = list(ex.map(_cat, hists))
         # the option toggles are documented process-wide switches: a thread that flips one is visible to the others while it is set,
         # so the threaded runs leave the toggle entries out (they are covered by the sequential histories: set, observe, restore)
-        quiet = [n for n in names if not n.startswith("toggle.")]
+        quiet = [n for n in names if not n.startswith(("toggle.", "threadtoggle."))]
         thr = [rng.sample(quiet, len(quiet)) for _ in range(3 if tier == "quick" else 30)]
         touts = list(ex.map(lambda hs: _cat(hs, 4), thr))
 
@@ -320,6 +369,19 @@ def _order_independence(rng, tier, rpt):
                 i += 1
         return pre + [target]
 
+    # a toggle set in one thread and observed from another gives the single-threaded toggled observation (and the restored one after)
+    for tt, single, plain in (("threadtoggle.bch.legacy", "toggle.bch.legacy", "derive.Bip44.BITCOIN_CASH"), ("threadtoggle.bch49.legacy", "toggle.bch49.legacy", "derive.Bip49.BITCOIN_CASH"),
+                              ("threadtoggle.ltc.depr", "toggle.ltc.depr", "derive.Bip44.LITECOIN")):
+        if tt in ref and single in ref and plain in ref:
+            body = ref[tt]
+            for k, want in (("worker-sees-main", ref[single]), ("main-sees-worker", ref[single]), ("restored", ref[plain])):
+                frag = "%s:%s" % (k, want)
+                if frag not in body:
+                    bad.append({"property": "C15", "entry_point": tt, "request_lines": [], "catalogue_history": [tt, single, plain],
+                                "replay_cmd": "cd /verif && PYTHONPATH=/verif:/repo /venv/bin/python -m harness.c15_catalogue '%s'" % json.dumps([tt, single, plain]),
+                                "relation": "an option toggle set in one thread is not what another thread observes (%s)" % k,
+                                "impl_output": body[:400], "model_output": frag[:300], "no_failing_input": False})
+                    break
     seen = set()
     for kind, runs, results in (("after a history of other calls", hists, outs), ("when issued concurrently from 4 threads", thr, touts)):
         for hs, out in zip(runs, results):
